@@ -27,8 +27,8 @@ pub fn parse_dir<P: AsRef<std::path::Path>>(
 ) -> anyhow::Result<HashMap<String, ast::Package>> {
     let go = &OsStr::new("go");
     let mut result = HashMap::new();
-    for file in std::fs::read_dir(&dir_path)? {
-        let path = file?.path();
+    for file in std::fs::read_dir(&dir_path).map_err(Error::IO)? {
+        let path = file.map_err(Error::IO)?.path();
         if path.extension() == Some(go) {
             let file = parse_file(&path)?;
             result
